@@ -6,7 +6,6 @@ import (
 	"fmt"
 	"sort"
 	"strings"
-	"time"
 
 	bs "github.com/danthegoodman1/bloomsearch"
 
@@ -160,7 +159,7 @@ func c06Execute(rc *RunCtx, i int, seedRand *core.Rand, steps []c06Step, storeKi
 			return false
 		}
 		for name, eng := range map[string]*bs.BloomSearchEngine{"this engine": e, "a fresh engine": fresh} {
-			ctx, cancel := context.WithTimeout(context.Background(), 60*time.Second)
+			ctx, cancel := context.WithTimeout(context.Background(), core.Patience)
 			res := world.RunQuery(ctx, eng, &bs.Query{})
 			cancel()
 			if res.QErr != nil || res.Err != nil {
@@ -224,7 +223,7 @@ func c06Execute(rc *RunCtx, i int, seedRand *core.Rand, steps []c06Step, storeKi
 			}
 			batches = append(batches, b)
 		case "flush":
-			ctx, cancel := context.WithTimeout(context.Background(), 60*time.Second)
+			ctx, cancel := context.WithTimeout(context.Background(), core.Patience)
 			e.Flush(ctx) // its own result is not the subject; the batches' answers are
 			cancel()
 			if !expect(fmt.Sprintf("after step %d (flush)", si)) {
@@ -233,7 +232,7 @@ func c06Execute(rc *RunCtx, i int, seedRand *core.Rand, steps []c06Step, storeKi
 			}
 		}
 	}
-	ctx, cancel := context.WithTimeout(context.Background(), 60*time.Second)
+	ctx, cancel := context.WithTimeout(context.Background(), core.Patience)
 	e.Flush(ctx)
 	cancel()
 	if !expect("at the end") {
